@@ -33,7 +33,7 @@ func (s *Store) snapshotRevert(revertTo Snapshot) error {
 		return err
 	}
 
-	err = s.persistFooter(revertToFooter.SegmentLocs[0].mref.fref.file, footer,
+	err = s.persistFooter(revertToFooter.anyMmapRef().fref.file, footer,
 		persistOptions)
 	if err != nil {
 		footer.DecRef()
@@ -52,12 +52,13 @@ func (s *Store) snapshotRevert(revertTo Snapshot) error {
 
 func (s *Store) revertToSnapshot(revertToFooter *Footer, options StorePersistOptions) (
 	rv *Footer, err error) {
-	if len(revertToFooter.SegmentLocs) <= 0 {
+	// A collection (top-level or child) may have nothing persisted while
+	// its child collections do, so look for a segment in the whole tree.
+	mref := revertToFooter.anyMmapRef()
+	if mref == nil {
 		return nil, fmt.Errorf("revert footer slocs <= 0")
 	}
-
-	mref := revertToFooter.SegmentLocs[0].mref
-	if mref == nil || mref.fref == nil || mref.fref.file == nil {
+	if mref.fref == nil || mref.fref.file == nil {
 		return nil, fmt.Errorf("revert footer parts nil")
 	}
 
